@@ -3,12 +3,12 @@ from symx.api import And, Iff, Implies, Instance, Ite, Not, Or, smax, smin, ssum
 
 META = {
     "bounds": {
-        "state": "inductive step: n = 3 (quick) / 4 (thorough) abstract flow items with symbolic heights 0..3 (0..5 thorough) and symbolic selectability; "
-                 "offset_rows symbolic >= 0, inset fraction from {0/1, 1/2, 1/3, 2/3}, focus position solver-chosen; maxrow symbolic 1..5 (1..7), maxcol symbolic unbounded",
+        "state": "inductive step: n = 3 abstract flow items with symbolic heights 0..2 (0..3 thorough) and symbolic selectability; "
+                 "offset_rows symbolic >= 0, inset fraction from {0/1, 1/2, 1/3, 2/3}, focus position solver-chosen; maxrow symbolic 1..3 (1..4 thorough), maxcol symbolic unbounded; the quick tier runs every operation on the focus walker and five on the simple walker, thorough all on both",
         "operations": "render; up / down / page up / page down / home / end / a character; button-1 press and wheel at a symbolic row; set_focus(pos, coming_from) and "
                       "set_focus_valign; a second render at another height (resize); walker insert / delete / replace at a symbolic index; both list walkers",
     },
-    "outside": ["item heights above 5, boxes taller than 7 rows, more than 4 items", "TreeListBox", "items with cursors (C09/C10 cover cursor geometry)"],
+    "outside": ["item heights above 3, boxes taller than 4 rows, more than 3 items (larger bounds did not finish within the thorough budget)", "TreeListBox", "items with cursors (C09/C10 cover cursor geometry)"],
     "stubs": ["abstract items returning SolidCanvas of their height", "CanvasCache disabled"],
     "assumptions": ["representation invariant of ListBox (DESIGN section 5), re-established by every render"],
 }
@@ -26,7 +26,7 @@ def instances(tier):
             if q and walker == "simple" and op not in ("render", "down", "page up", "delete", "click"):
                 continue
             out.append(Instance("%s.%s" % (walker, op.replace(" ", "_")), "h_listbox",
-                                {"walker": walker, "op": op, "n": 3 if q else 4, "maxr": 2 if q else 5, "maxrow": 3 if q else 7}, timeout=900 if q else 7200))
+                                {"walker": walker, "op": op, "n": 3, "maxr": 2 if q else 3, "maxrow": 3 if q else 4}, timeout=900 if q else 2400))
     out.append(Instance("empty", "h_listbox", {"walker": "focus", "op": "render", "n": 0, "maxr": 3, "maxrow": 5}, timeout=300))
     out.append(Instance("one.down", "h_listbox", {"walker": "focus", "op": "down", "n": 1, "maxr": 3, "maxrow": 5}, timeout=300))
     return out
